@@ -570,7 +570,10 @@ int main(int argc, char **argv) {
   // rays
   std::vector< std::string > raycfg;
   if (!th)
-    raycfg = {"1x1x1", "2x1x1", "3x3x3", "3x3x3-unit", "3x2x2-parsec"};
+    // 1x3x2 and 4x2x3: boxes whose three sides and three cell counts are pairwise different, so that a
+    // wrap or index computed with the side / count of another axis cannot cancel (the other quick boxes
+    // all have sides.x == sides.y)
+    raycfg = {"1x1x1", "2x1x1", "1x3x2", "4x2x3", "3x3x3", "3x3x3-unit", "3x2x2-parsec"};
   else
     raycfg = {"1x1x1", "2x1x1", "1x3x2", "3x3x3", "4x2x3", "5x1x2", "3x3x3-unit", "4x3x5-generic", "10x1x1-unit", "3x2x2-parsec"};
   struct Task {
